@@ -869,6 +869,14 @@ class Interp(OpsMixin, BuiltinsMixin):
         return any(c.builtin and c.name == "type" for c in cls.mro()) and cls.lookup("keys")[0] is not None
 
     def make_enum(self, cls, args, kwargs, node, frame):
+        new, owner = cls.lookup("__new__")
+        if isinstance(new, FuncVal):
+            e = self.call_function(new, [cls] + list(args), kwargs, node, frame)
+            if isinstance(e, EnumVal):
+                if len(args) == 1:
+                    e.origin = self.origin_of.get(id(args[0]))
+                return e
+            return e
         tmp = {}
         if len(args) == 1 and isinstance(args[0], dict):
             tmp.update(args[0])
